@@ -26,6 +26,7 @@ type caseInfo struct {
 	Index  int        `json:"index"`
 	Stream string     `json:"stream"`
 	Design *dg.Design `json:"design"`
+	Meta   *MetaSpec  `json:"meta,omitempty"`
 }
 
 type runner struct {
@@ -37,12 +38,14 @@ type runner struct {
 	nModel   int
 	ordinal  int
 	sigs     map[string]int
+	meta     *MetaSpec // metadata of the design being run (nil: none)
 }
 
 // fail records a failing design. At most five designs per signature and worker are
 // kept in full (all are counted), so that a new signature is never crowded out by the
 // many reproductions of the recorded ones.
 func (r *runner) fail(stream string, d *dg.Design, f Finding) {
+	ms := r.meta
 	r.res.Count("failure_sig=" + f.Sig)
 	if r.sigs == nil {
 		r.sigs = map[string]int{}
@@ -51,13 +54,17 @@ func (r *runner) fail(stream string, d *dg.Design, f Finding) {
 	if r.sigs[f.Sig] > 5 {
 		return
 	}
-	r.res.Failures = append(r.res.Failures, vh.Failure{Signature: f.Sig, What: f.What, Input: map[string]any{"stream": stream, "ordinal": r.ordinal, "design": d}})
+	r.res.Failures = append(r.res.Failures, vh.Failure{Signature: f.Sig, What: f.What, Input: map[string]any{"stream": stream, "ordinal": r.ordinal, "design": d, "meta": ms}})
 }
 
 // run evaluates one design. strict: witness stream (nothing filtered before comparing).
-func (r *runner) run(stream string, d *dg.Design, strict bool) {
+func (r *runner) run(stream string, d *dg.Design, ms *MetaSpec, strict bool) {
 	r.res.Count("designs_" + stream)
-	out := d.Eval()
+	if ms.empty() {
+		ms = nil
+	}
+	r.meta = ms
+	out := d.EvalHooked(ms.hook(d))
 	switch {
 	case out.Panic != "":
 		r.res.Count("eval_panic_" + stream)
@@ -87,7 +94,21 @@ func (r *runner) run(stream string, d *dg.Design, strict bool) {
 	}
 	r.res.Count("accepted_" + stream)
 	md := extractModel()
-	c := &ctx{md: md, counts: r.res.Dist}
+	c := &ctx{md: md, counts: r.res.Dist, hidden: map[string]bool{}}
+	// what the documents must list: the mounted operations the description does not mark
+	// openapi:generate=false (decided from the description, not from goa's expressions)
+	var visible []Op
+	for _, o := range g.ServerOps {
+		if ms.excluded(o) {
+			c.hidden[o.Key()] = true
+			r.res.Count("op_marked_openapi_generate_false")
+		} else {
+			visible = append(visible, o)
+		}
+	}
+	for _, o := range visible {
+		delete(c.hidden, o.Key())
+	}
 	// hypotheses of the partial theorems that goa itself is expected to enforce
 	for _, s := range md.Services {
 		for _, e := range s.Endpoints {
@@ -176,7 +197,7 @@ func (r *runner) run(stream string, d *dg.Design, strict bool) {
 				c.fail("openapi3-malformed", x)
 			}
 		}
-		c.compareOps("openapi3", ops3, g.ServerOps, strict)
+		c.compareOps("openapi3", ops3, visible, strict)
 		if strict {
 			if err := kinValidateExamples(g.Docs["openapi3.json"]); err != nil && strings.Contains(err.Error(), "invalid example") {
 				r.res.Count("info_openapi3_example_not_matching_its_schema")
@@ -196,7 +217,7 @@ func (r *runner) run(stream string, d *dg.Design, strict bool) {
 				c.fail("openapi2-malformed", x)
 			}
 		}
-		c.compareOps("openapi2", ops2, g.ServerOps, strict)
+		c.compareOps("openapi2", ops2, visible, strict)
 	}
 
 	// one failure per signature and design
@@ -262,7 +283,7 @@ func (r *runner) run(stream string, d *dg.Design, strict bool) {
 		return
 	}
 	idx := r.ordinal
-	r.cases = append(r.cases, caseInfo{idx, stream, d})
+	r.cases = append(r.cases, caseInfo{idx, stream, d, ms})
 	fmt.Fprintf(&r.lines, "(%d%%nat, %s, %s, %s, %s)\n", idx, dt, st, t3, t2)
 	r.nModel++
 	if idx%37 == 3 {
@@ -298,6 +319,7 @@ type job struct {
 	stream string
 	d      *dg.Design
 	strict bool
+	meta   *MetaSpec
 }
 
 // jobs walks every design of the run in order and calls f(ordinal, job) for the
@@ -315,7 +337,7 @@ func jobs(seed uint64, n int, res *vh.Result, own func(int) bool, f func(int, jo
 	}
 	for _, d := range coveringDesigns() {
 		d := d
-		emit(func() job { return job{"cover", d, false} })
+		emit(func() job { return job{"cover", d, false, coveringMeta(d)} })
 	}
 	opts := dg.DefaultOptions()
 	opts.ExoticVerbs = true
@@ -353,8 +375,13 @@ func jobs(seed uint64, n int, res *vh.Result, own func(int) bool, f func(int, jo
 					res.Dist["sanitized_"+k] += v
 				}
 			}
+			var ms *MetaSpec
+			if i%4 >= 2 {
+				// openapi:* metadata at every level the DSL offers, drawn independently
+				sd, ms = randomMeta(sd, vh.NewRNG(seed*7000003+uint64(i)))
+			}
 			if mainOwn {
-				f(ord, job{"main", sd, false})
+				f(ord, job{"main", sd, false, ms})
 			}
 		}
 		ord++
@@ -363,10 +390,10 @@ func jobs(seed uint64, n int, res *vh.Result, own func(int) bool, f func(int, jo
 	// random design in ten exactly as generated
 	for _, d := range hand {
 		d := d
-		emit(func() job { return job{"witness", d, true} })
+		emit(func() job { return job{"witness", d, true, nil} })
 	}
 	for _, k := range keep {
-		f(k.ord, job{"witness", k.d, true})
+		f(k.ord, job{"witness", k.d, true, nil})
 	}
 }
 
@@ -412,6 +439,7 @@ func main() {
 			Input struct {
 				Stream string     `json:"stream"`
 				Design *dg.Design `json:"design"`
+				Meta   *MetaSpec  `json:"meta"`
 			} `json:"input"`
 		}
 		if err := json.Unmarshal(b, &rp); err != nil || rp.Input.Design == nil {
@@ -420,12 +448,12 @@ func main() {
 		}
 		r.ordinal = 0
 		fixInts(rp.Input.Design)
-		r.run("replay", rp.Input.Design, rp.Input.Stream == "witness")
+		r.run("replay", rp.Input.Design, rp.Input.Meta, rp.Input.Stream == "witness")
 	case *worker >= 0:
 		// goa keeps the design in package level state: one design at a time per process
 		jobs(*seed, n, nil, func(i int) bool { return i%*workers == *worker }, func(i int, j job) {
 			r.ordinal = i
-			r.run(j.stream, j.d, j.strict)
+			r.run(j.stream, j.d, j.meta, j.strict)
 		})
 		so := shardOut{Result: r.res, Ops: r.nOps, Model: r.nModel, Lines: r.lines.String()}
 		for k := range r.distinct {
